@@ -37,6 +37,20 @@ for _pid, _txt, _note in [
     ("C12", "Real Mixture constructor / setters / _estimate_system_molecular_weight on all kind assignments of k <= 3 (4) components with symbolic numbers parsed from symbolic text: soundness (relations exact, totals within 10x the code's tolerance, written values kept, unique solution of the linear specification), completeness for the documented determined forms, print/parse keeps masses.", "Bounds: k, value ranges, tolerance band excluded. Component objects are stand-ins for the estimate function; System text round trip on concrete chemistry."),
     ("C13", "Real System.generator / System.generate with symbolic system mass, percentages, per-molecule masses and completeness flags (component generate stubbed), all picks: provenance, completeness, stop exactly at the system mass, refusal of non-generable systems, generability checked before generating.", "Bounds: <= 3 (4) yields, <= 2 (3) components; Molecule.generate stubbed (covered by C04-C08)."),
     ("C14", "The pick vector handed to rng.choice is captured as terms in the declared fractions; with symbolic mean masses z3 decides the renewal-reward identity p_i m_i sum f = f_i sum p_j m_j per component. The pinned tree violates it (pick probability = mass fraction): listed as known finding, any other law is a VIOLATION.", "Assumes the renewal-reward limit theorem; finite-size effects outside."),
+    ("C09", "Reduced claim (plumbing): distribution parameters as numeral atoms with symbolic values inside symbolic text run through the real get_distribution / constructors / draw_mw / prob_mw with scipy's objects replaced by recorders; z3 proves parameter order and meaning per family (gauss loc/scale, uniform loc/scale=high-low, poisson mu, flory_schulz a, schulz_zimm Mn and z(Mw-Mn)=Mn, log_normal M/D), the caller's generator reaches rvs, dispatch by name, one draw per block; telescoping of interval probabilities for an uninterpreted monotone CDF.",
+     "Outside (stated): that scipy samples the law it is parameterised with and that the hand-written pmf/pdf are the named laws (C11); ensemble frequencies are not claimed."),
+    ("C10", "Self-composition: run A (fresh instance, symbolic stream: all picks, symbolic targets, symbolic weights) vs run B (another instance after a history of operations on it or on a third instance: generate, prints, graphs, mirror, accessors, re-parse, global-generator draws) with the same stream: same candidates, same SMILES and mass; structural digests, printed forms, generability, BigSMILESbase.bond_descriptors and the global generator's state unchanged after every operation.",
+     "Bounds: 4 (6) skeletons at N = 1 (2), history length 1 (2) between the generations. draw_mw / embed stubbed. Process-level effects and System.generator outside."),
+    ("C15", "One harness per rule of the statement; the breaking operator (position, offending characters, offending numbers) is symbolic and every path must end in an exception: unbalanced branches (validity precondition with balance negated), unclosed bracket, descriptor between two atoms, unknown descriptor symbol, distribution name with one character changed / dropped, transition list of wrong length, negative weight (not generable, generate refuses), text after a mixture specifier, percentage outside 0-100, generating the non-generable, missing / mismatching prefix; termination by an unwinding assertion on every while loop of the text layer for fully symbolic texts of length <= 4 (5).",
+     "Any exception counts as rejection. One violated rule at a time. Termination texts over the structural alphabet 'C{}[]$.|;,5 '. Known finding: System.generate does not consult System.generable."),
+    ("C17", "Real StochasticAtomGraph.generate with symbolic weights compared with a graph built independently from the parsed structure and RDKit's reading of each token (descriptors as dummy atoms): nodes (element, charge, aromaticity), static edges, stochastic / termination / transition edge multisets, weight attributes as z3 terms.",
+     "Structure is concrete per molecule; only weights are quantified (weak use of the solver, kept because offsets / missing edge classes / wrong weight attributes are realistic changes). Known finding: edges of descriptors with a transition list."),
+    ("C18", "Real AtomGraph.generate on Schulz-Zimm skeletons with every rng.choice outcome explored, the draw per (Mw, Mn) key a fresh real and weights symbolic: whole residues (contiguous id blocks mapping onto a token's atoms and internal bonds), inter-residue bonds follow non-static graph edges with their bond order, tree, sanitisation, bounded size, same stream => same molecule.",
+     "Bounds: 6 skeletons, 2-3 units per block. rng threshold 1e-200 for the code's EPSILON = 1e-300. Draw stubbed."),
+    ("C19", "Real get_ensemble_prob with each block's CDF an uninterpreted monotone function (fresh real per distinct argument) and symbolic start weights: the returned term is proved equal to prod_b (F_b(n m) - F_b((n-1) m)) for n = 1..2 (3) units per block on 6 skeletons (prefix / end-group start, one / two blocks, connector, all six families' prob_mw plumbing); foreign molecule -> 0; renumbered SMILES -> same term.",
+     "Bounds: linear chains of one directed repeat unit, n <= 2 (3), 2-3 renumberings (samples). Known findings: symmetric tokens / symmetric molecules (embedding enumeration)."),
+    ("C20", "Decidable core: all histories of <= 2 (3) get_assignment_class calls over {None, A, B}^2 with the reader replaced by a recorder (object returned was built from exactly the requested files); get_type_assignments with a symbolic match relation (4 rules x 2 (3) atoms) and atom permutation (longest rule wins, first among equals, FfAssignmentError with the partial assignment, commutes with numbering); refusal of partially generated molecules; concrete side check of type masses against the element of each rule.",
+     "Outside: RDKit's SMARTS semantics, completeness of the bundled rule set. Known finding: opls_420 (thiolate sulfur typed as oxygen) in the bundled data."),
     ("C16", "Real gen_reaction_graph with symbolic weights on 21 (31) molecules: node set, per-node sums = 1 or absent for prob / term_prob / trans_prob, every edge value equals the reference law of C08 as a polynomial identity, edge sets = admissible partners.", "Bounds: molecule list; weights in {0} u [1e-6,1e6]; all-zero admissible weights at a hand-over outside."),
 ]:
     CHECKS[_pid] = dict(text=_txt, note=_note, ref=f"DESIGN.md §4 {_pid}")
